@@ -162,16 +162,16 @@ theorem loadEdges_links (c : OpCodec Ω) : ∀ (es : List Edge) (s s' : St Ω), 
 
 /-- The labelled codec of the raw store histories is lawful (decoding returns the label itself). -/
 theorem labelCodec_laws : CodecLaws labelCodec id := by
-  refine ⟨?_, ?_, fun _ _ => rfl, ?_⟩
-  · intro op p j h
+  refine ⟨?_, ?_, fun _ _ _ => rfl, ?_⟩
+  · intro op p j _ h
     simp only [labelCodec] at h ⊢
     by_cases h1 : op = "module"
     · subst h1; simp at h; subst h; simp [fld]
     · by_cases h2 : op = "const"
       · subst h2; simp at h; subst h; simp [fld]
       · simp [h1, h2] at h; subst h; simp [fld]
-  · intro op p j h; exact h
-  · intro op p j _ inc
+  · intro op p j _ h; exact h
+  · intro op p j _ _ inc
     simp only [labelCodec]
     by_cases h : op = "module" ∨ op = "const"
     · exact ⟨none, by simp [h]⟩
@@ -197,15 +197,16 @@ theorem reloaded_in_index_order (s : St Ω) (n : Nat) (parOf : Nat → Nat) (hn 
     `ReachT`) and every lawful operation codec: whenever `_to_serial` succeeds, loading the document
     succeeds and serialising the loaded HUGR gives the same nodes, edges and metadata. -/
 theorem json_fixed_point [Inhabited Ω] (rootOp : Ω) (m : Meta) (s : St Ω) (hr : C04.ReachT rootOp m s)
-    (c : OpCodec Ω) (nrm : Ω → Ω) (laws : CodecLaws c nrm) : JsonFixedPoint c s := by
+    (c : OpCodec Ω) (nrm : Ω → Ω) (Good : Ω → Prop) (laws : CodecLawsOn c nrm Good)
+    (hgood : ∀ i d, getNode s i = .ok d → Good d.op) : JsonFixedPoint c s := by
   intro d hd
   obtain ⟨order, ho, _, _, a, b, cc⟩ := C03.index_sane_nodes_exact rootOp m s hr
-  exact Serial.json_fixed_point c nrm laws s order ho a b cc d hd
+  exact Serial.json_fixed_point c nrm Good laws s hgood order ho a b cc d hd
 
 /-- … in particular for the labelled operations of the raw store histories. -/
 theorem json_fixed_point_label (m : Meta) (s : St String) (hr : C04.ReachT "module" m s) :
     JsonFixedPoint labelCodec s :=
-  json_fixed_point "module" m s hr labelCodec id labelCodec_laws
+  json_fixed_point "module" m s hr labelCodec id (fun _ => True) labelCodec_laws (fun _ _ _ => trivial)
 
 /-- Non-vacuity / regression: a store with an order link, a multi-link, metadata and a reused
     index is a fixed point of the model's JSON round trip. -/
